@@ -226,6 +226,45 @@ def firstParityDiff (nodesB nodesA : List NodeRect) (pathB pathA : List PathPt) 
         if sideParity dim (nodesA.getD k default) pathA != expectedParity dim nodesB nodesA pathB k
         then some (k, dim) else none
 
+/-! ### 5c. closed paths (cluster boundaries: cyclic `topology::Edge`)
+
+The path is printed with its first point repeated at the end.  Closedness replaces the "ends
+unchanged" clause (the join point of the list may legitimately move when it is pruned); the bend
+test also covers the join point; the side of every node is the crossing number of the closed
+polygon (inside / outside), which needs no end-point correction and is frame independent. -/
+
+/-- the printed path is closed: at least two segments and last point = first point -/
+def cycleClosed (path : List PathPt) : Bool :=
+  decide (3 ≤ path.length) &&
+    match path.head?, path.getLast? with
+    | some a, some b => decide (a.node = b.node) && decide (a.ri = b.ri)
+    | _, _ => false
+
+/-- `[nSegments, walked, reachedLast, closed, ring, ringClosed]` as dumped by the harness from the
+    doubly linked list: the walk firstSegment → lastSegment meets exactly `nSegments` segments, the
+    list is closed, and following `outSegment` from the first point returns to it after
+    `nSegments` steps; the printed path has `nSegments + 1` points -/
+def cycleListConsistent (info : List Nat) (path : List PathPt) : Bool :=
+  match info with
+  | [nSeg, walked, reachedLast, closed, ring, ringClosed] =>
+    decide (walked = nSeg) && decide (reachedLast = 1) && decide (closed = 1) && decide (ring = nSeg)
+      && decide (ringClosed = 1) && decide (path.length = nSeg + 1)
+  | _ => false
+
+/-- path extended by its second point, so that `triples` also contains the join point as a bend -/
+def cycleBendPath (path : List PathPt) : List PathPt := path ++ (path.drop 1).take 1
+
+/-- crossing counts before / at the centre for every node (no exemptions) -/
+def cycleSignature (dim : Nat) (nodes : List NodeRect) (path : List PathPt) : List (Nat × Nat) :=
+  nodes.map fun n => sideCount dim n path
+
+/-- inside / outside of every node centre w.r.t. the closed path, by both rays -/
+def cycleInside (nodes : List NodeRect) (path : List PathPt) : List (Bool × Bool) :=
+  nodes.map fun n => (sideParity 0 n path, sideParity 1 n path)
+
+def firstDiffIdx {α : Type} [BEq α] (a b : List α) : Option Nat :=
+  ((a.zip b).zipIdx.find? fun p => p.1.1 != p.1.2).map (·.2)
+
 /-! ### whole state -/
 
 structure State where
